@@ -198,6 +198,8 @@ def _by_interpretation(ctx, prog, nb, enum_b):
 
 def run(ctx):
     prog = ctx.prog
+    from .C11 import shape_wrappers
+    shape_wrappers(ctx, prog)
     ctx.rule('R14.1', 'candidates = initial with slot k := target[k], k in 0..6, target in {from, to}')
     ctx.rule('R14.2', 'None is returned on the false edge of compliant(&candidate) when constraints exist')
     ctx.rule('R14.3', 'with skip = {0..k-1} every relevant pair with a moved member (links k..5, tool) is still checked')
